@@ -39,7 +39,7 @@ def stepK (k : Kad) (op : List String) (annot : List String) : Kad × String :=
   match op with
   | ["add", l] =>
     match parseList l with
-    | some as => if as.isEmpty then (k, "bad-op") else (k.addPeers as, "ok")
+    | some as => if as.isEmpty then (k, "bad-op") else ((k.apply (.add as)).1, "ok")
     | none => (k, "bad-op")
   | ["conn", a, f] =>
     match parseAddr a, parseBit f with
@@ -47,20 +47,20 @@ def stepK (k : Kad) (op : List String) (annot : List String) : Kad × String :=
       let kick := match annot with
         | ["kick", x] => parseAddr x
         | _ => none
-      let (k', o) := k.connectedEv a f kick
-      (k', match o with | .ok => "ok" | .oversat => "oversat" | .err => "err" | .badAnnot => "bad-annot")
+      let (k', o) := k.apply (.conn a f kick)
+      (k', match o.out with | .ok => "ok" | .oversat => "oversat" | .err => "err" | .badAnnot => "bad-annot")
     | _, _ => (k, "bad-op")
   | ["out", a, m] =>
     match parseAddr a with
-    | some a => if m = "full" then (k.outbound a false, "ok") else if m = "boot" then (k.outbound a true, "ok") else (k, "bad-op")
+    | some a => if m = "full" then ((k.apply (.out a false)).1, "ok") else if m = "boot" then ((k.apply (.out a true)).1, "ok") else (k, "bad-op")
     | none => (k, "bad-op")
   | ["disc", a] =>
     match parseAddr a with
-    | some a => (k.disconnected a, "ok")
+    | some a => ((k.apply (.disc a)).1, "ok")
     | none => (k, "bad-op")
   | ["force", a] =>
     match parseAddr a with
-    | some a => (k.disconnectForce a, "ok")
+    | some a => ((k.apply (.force a)).1, "ok")
     | none => (k, "bad-op")
   | ["pick", a] =>
     match parseAddr a with
@@ -68,19 +68,19 @@ def stepK (k : Kad) (op : List String) (annot : List String) : Kad × String :=
     | none => (k, "bad-op")
   | ["protect", l] =>
     match parseList l with
-    | some as => (k.setProtect as, "ok")
+    | some as => ((k.apply (.protect as)).1, "ok")
     | none => (k, "bad-op")
   | ["reach", a, s] =>
     match parseAddr a, parseStatus s with
-    | some a, some s => (k.setReachable a s, "ok")
+    | some a, some s => ((k.apply (.reach a s)).1, "ok")
     | _, _ => (k, "bad-op")
   | ["self", s] =>
     match parseStatus s with
-    | some s => (k.updateReachability s, "ok")
+    | some s => ((k.apply (.self s)).1, "ok")
     | none => (k, "bad-op")
   | ["radius", r] =>
     match Driver.parseNat r with
-    | some r => if r ≤ 255 then (k.setRadius r, "ok") else (k, "bad-op")
+    | some r => if r ≤ 255 then ((k.apply (.radius r)).1, "ok") else (k, "bad-op")
     | none => (k, "bad-op")
   | ["depth"] => (k, toString k.depth)
   | ["depthx", s] =>
